@@ -81,7 +81,7 @@ func nlist(xs []int) string {
 	return gen.List(items)
 }
 
-var toutTerm = map[string]string{"ok": "TOk", "exit": "TExit", "invol": "TInvol", "timeout": "TTimeout",
+var toutTerm = map[string]string{"okdelay": "TOk", "ok": "TOk", "exit": "TExit", "invol": "TInvol", "timeout": "TTimeout",
 	"late": "TLate", "okslow": "TOkSlow", "trigfail": "TTrigFail"}
 
 func hookTerm(n *namer, h Hook) string {
@@ -194,6 +194,8 @@ func recTerms(n *namer, in Input, recs []Rec) []string {
 			out = append(out, "OB")
 		case "T":
 			out = append(out, "OT "+nlist(r.Tasks))
+		case "F":
+			out = append(out, fmt.Sprintf("OF %d", r.Hook))
 		case "R":
 			out = append(out, fmt.Sprintf("OR %d %d %d", evCode(r.Run.Transition), statusCode(r.Run.Status), r.Run.Rn))
 		case "O":
